@@ -726,16 +726,17 @@ func main() {
 		selFns := []string{"Connection.getReconnectChanLocked", "Connection.checkForRetry", "Connection.isConnectedLocked",
 			"Connection.waitForConnection", "Connection.doReconnect", "Connection.DoCommand", "Connection.connect",
 			"Connection.Shutdown", "ConnectionTransportTLS.Dial",
-			"CancellableTimer.Wait", "CancellableTimer.StartRandom", "isWithFireNow",
+			"CancellableTimer.Wait", "CancellableTimer.StartRandom", "CancellableTimer.StartConstant", "CancellableTimer.FireNow",
+			"CancellableTimer.swap", "CancellableTimer.get", "fireOnce.fire", "fireOnce.wait", "isWithFireNow",
 			"Connection.fireConnectDelayTimerIfRequested"}
-		var conds, rets, gos []string
+		var conds, rets, gos, asg []string
 		for _, fn := range selFns {
 			fd, ok := fm[fn]
 			if !ok {
 				missing = append(missing, fn)
 				continue
 			}
-			var cs, rs, gs []string
+			var cs, rs, gs, as []string
 			var guards []string
 			var walk func(n ast.Node)
 			walk = func(n ast.Node) {
@@ -757,6 +758,27 @@ func main() {
 						guards = guards[:len(guards)-1]
 					}
 					return
+				case *ast.CallExpr:
+					if exprString(x.Fun) == "time.AfterFunc" {
+						var a []string
+						for _, e := range x.Args {
+							a = append(a, exprString(e))
+						}
+						as = append(as, coqString("time.AfterFunc("+strings.Join(a, ", ")+")"))
+					}
+				case *ast.ForStmt:
+					if x.Cond != nil {
+						cs = append(cs, coqString("for:"+exprString(x.Cond)))
+					}
+				case *ast.AssignStmt:
+					var ls, rs2 []string
+					for _, e := range x.Lhs {
+						ls = append(ls, exprString(e))
+					}
+					for _, e := range x.Rhs {
+						rs2 = append(rs2, exprString(e))
+					}
+					as = append(as, coqString(strings.Join(ls, ",")+" "+x.Tok.String()+" "+strings.Join(rs2, ",")))
 				case *ast.ReturnStmt:
 					var es []string
 					for _, e := range x.Results {
@@ -782,9 +804,11 @@ func main() {
 			conds = append(conds, "  ("+coqString(fn)+", ["+strings.Join(cs, "; ")+"])")
 			rets = append(rets, "  ("+coqString(fn)+", ["+strings.Join(rs, "; ")+"])")
 			gos = append(gos, "  ("+coqString(fn)+", ["+strings.Join(gs, "; ")+"])")
+			asg = append(asg, "  ("+coqString(fn)+", ["+strings.Join(as, "; ")+"])")
 		}
 		fmt.Fprintf(&out, "Definition cond_census : list (string * list string) := [\n%s\n].\n", strings.Join(conds, ";\n"))
 		fmt.Fprintf(&out, "Definition return_census : list (string * list string) := [\n%s\n].\n", strings.Join(rets, ";\n"))
+		fmt.Fprintf(&out, "Definition assign_census : list (string * list string) := [\n%s\n].\n", strings.Join(asg, ";\n"))
 		fmt.Fprintf(&out, "Definition go_guards : list (string * list (string * list string)) := [\n%s\n].\n", strings.Join(gos, ";\n"))
 	}
 	fmt.Fprintln(&out)
